@@ -15,6 +15,7 @@
 EXTENDS Routing, Json, IOUtils
 
 Rec == ndJsonDeserialize(IOEnv.TRACE)
+TrFold(c) == c      \* no deviation is active in trace validation
 
 VARIABLES l, bad, stats     \* stats: how many requests of each class the log contained (measured by TLC)
 tvars == <<l, bad, stats>>
